@@ -101,6 +101,8 @@ type fnTrans struct {
 	nOb map[string]int
 	tupleVals map[ssa.Value][]Term
 	paramTV map[string]TV
+	lemmaOK  map[int]bool
+	lemmaErr map[int]string
 	userCallback bool
 	anchors map[ssa.Instruction]string
 	resultNames []string
@@ -767,6 +769,27 @@ func (f *fnTrans) callMods(c *ssa.CallCommon) []string {
 				}
 			}
 		}
+	case name == "encoding/binary.Write" || name == "(*github.com/blugelabs/bluge_segment_api.Data).WriteTo":
+		set["G$allocTop"] = true
+		set[f.w.ElemHeap(types.Typ[types.Uint8])] = true
+		wa := c.Args[0]
+		if name != "encoding/binary.Write" {
+			wa = c.Args[1]
+		}
+		if iface, ok := wa.Type().Underlying().(*types.Interface); ok {
+			if ct, ok := f.w.Spec.Contracts["(io.Writer).Write"]; ok {
+				for i := 0; i < iface.NumMethods(); i++ {
+					if iface.Method(i).Name() == "Write" {
+						addAll(f.w.modHeapsOfContract(ct, iface.Method(i).Type().(*types.Signature)))
+					}
+				}
+			}
+			for _, g := range f.w.FnAll {
+				if g.Signature.Recv() != nil && g.Name() == "Write" && types.Implements(g.Signature.Recv().Type(), iface) {
+					addAll(f.w.ModsetOf(g))
+				}
+			}
+		}
 	default:
 		inPkg := callee.Pkg == f.w.Pkg || (callee.Parent() != nil && callee.Parent().Pkg == f.w.Pkg)
 		ct := f.w.Spec.Contracts[name]
@@ -937,6 +960,11 @@ func TranslateFn(w *World, fn *ssa.Function) *FnVC {
 	for _, b := range f.topoOrder() {
 		f.block(b)
 	}
+	for i, e := range f.lemmaErr {
+		if !f.lemmaOK[i] {
+			f.unsupported("%s", e)
+		}
+	}
 	return f.vc
 }
 
@@ -964,6 +992,7 @@ func contractProps(c *Contract) []string {
 	}
 	add(c.Requires)
 	add(c.Ensures)
+	add(c.Lemmas)
 	add(c.AllLoopInv)
 	for _, l := range c.Loops {
 		add(l.Invariants)
